@@ -253,6 +253,10 @@ func c02Run(c *core.Ctx, o *so.Oracle, sp *saml.ServiceProvider, s1 *fx.KeyPair,
 	r := o.Response("req-1", n)
 	rel := so.ResponseEl(r, children...)
 	rel.CreateAttr("IssueInstant", lexical(rII, k.form))
+	if k.layout == 1 && (k.form+k.shape+int(k.nowOff/time.Microsecond))%3 == 0 { // unsigned Response: Destination is optional
+		rel.RemoveAttr("Destination")
+		c.Count("unsigned_responses_without_destination")
+	}
 	if k.layout == 0 {
 		var err error
 		rel, err = o.Sign(rel, s1, "")
